@@ -15,8 +15,13 @@ C18 driver. Three kinds of cases (fields after the property id):
            observation: hex bytes of `PatternEncoder::encode` into the writer, or PANIC / ERR
   console  <NO_COLOR> <CLICOLOR> <CLICOLOR_FORCE> <tty stdout?> <tty stderr?> <stdout|stderr> <tty_only>
            env values `-` (unset) | 0 | 1
-           observation: `rc=<exit code> out=<hex> err=<hex>` of a child process that builds a
-           ConsoleAppender with the pattern `{h({l} {m})}{n}` and appends one record per level
+           = the plan with the one appender <o|e><tty_only>a
+  plan     <NO_COLOR> <CLICOLOR> <CLICOLOR_FORCE> <tty stdout?> <tty stderr?> <items>
+           items, `,`-joined, in build order: <o|e><0|1><a|b|c>   target stdout/stderr, tty_only,
+           builder call order a = .target().tty_only(), b = .tty_only().target(), c = config deserializer
+           observation: `rc=<exit code> out=<hex> err=<hex>` of a child process that builds the
+           ConsoleAppenders of the plan in order (pattern `{h({l} {m})}{n}`) and then lets each
+           append one record per level
 -/
 namespace Driver.C18
 open Log4rs Log4rs.Proto Log4rs.Console Log4rs.Console.Spec Driver
@@ -214,28 +219,57 @@ def handleHl (w lvl : String) (msg : List Char) (toks implObs : String) : Answer
           ++ flag (!f.unformatted) ("group-depth-" ++ toString (min (groupDepth f) 4)) }
   | _, _ => badCase "hl"
 
-def handleConsole (nc cc cf to te tg tonly implObs : String) : Answer :=
-  match decEnvVal nc, decEnvVal cc, decEnvVal cf, decBool to, decBool te, decTarget tg, decBool tonly with
-  | some nc, some cc, some cf, some to, some te, some tg, some tonly =>
-    let s : Setup := { env := { noColor := nc, clicolor := cc, clicolorForce := cf },
-                       ttyOut := to, ttyErr := te, target := tg, ttyOnly := tonly }
-    let model := match appendAll s childPattern childLevels with
+def decItem (s : String) : Option PlanItem :=
+  match s.toList with
+  | [t, b, o] =>
+    let t? : Option Target := if t = 'o' then some .stdout else if t = 'e' then some .stderr else none
+    let b? : Option Bool := if b = '1' then some true else if b = '0' then some false else none
+    let o? : Option CallOrder :=
+      if o = 'a' then some .targetThenTtyOnly else if o = 'b' then some .ttyOnlyThenTarget
+      else if o = 'c' then some .viaConfig else none
+    match t?, b?, o? with
+    | some t, some b, some o => some { target := t, ttyOnly := b, order := o }
+    | _, _, _ => none
+  | _ => none
+
+def handlePlan (nc cc cf to te items implObs : String) (single : Bool) : Answer :=
+  match decEnvVal nc, decEnvVal cc, decEnvVal cf, decBool to, decBool te, mapM? decItem (decList ',' items) with
+  | some nc, some cc, some cf, some to, some te, some items =>
+    let g : Global := { env := { noColor := nc, clicolor := cc, clicolorForce := cf }, ttyOut := to, ttyErr := te }
+    let model := match runPlan g items childPattern childLevels with
       | .ok st => "rc=0 out=" ++ encBytes st.out ++ " err=" ++ encBytes st.err
       | _ => "rc=3 out=_ err=_"
     let spec := match decConsoleObs implObs with
       | none => Verdict.fail "unreadable observation" "C18/console-observation"
-      | some (rc, o, e) => consoleVerdict s childLevels childPattern rc o e
-    let tty := s.targetIsatty
+      | some (rc, o, e) => planVerdict g items childLevels childPattern rc o e
+    let flag (b : Bool) (t : String) : List String := if b then [t] else []
+    let itemTags (it : PlanItem) : List String :=
+      let tty := g.isatty it.target
+      [if tty then "target-tty" else "target-pipe",
+       if it.target = .stdout then "stdout" else "stderr",
+       if it.ttyOnly then "tty-only" else "unrestricted",
+       if shouldWrite tty it.ttyOnly then "must-write" else "must-be-silent",
+       if colourEnabled g.env tty then "colour" else "no-colour",
+       match it.order with
+       | .targetThenTtyOnly => "order-target-first" | .ttyOnlyThenTarget => "order-tty-only-first"
+       | .viaConfig => "order-via-config"]
+      ++ flag (itemF2Region g it) "f2-tty-only-colour-forced"
     { model
       spec := spec.render
-      tags := ["console", "mode-" ++ (colorMode s.env).name,
-               if tty then "target-tty" else "target-pipe",
-               if tg = .stdout then "stdout" else "stderr",
-               if tonly then "tty-only" else "unrestricted",
-               if shouldWrite tty tonly then "must-write" else "must-be-silent",
-               if colourEnabled s.env tty then "colour" else "no-colour"]
-        ++ (if f2Region s then ["f2-tty-only-colour-forced"] else []) }
-  | _, _, _, _, _, _, _ => badCase "console"
+      tags := ([if single then "console" else "plan", "mode-" ++ (colorMode g.env).name,
+                "appenders-" ++ toString (min items.length 3)]
+        ++ flag (to != te) "streams-differ"
+        ++ flag (items.any (·.target == .stdout) && items.any (·.target == .stderr)) "both-targets"
+        ++ flag (leakRegion g items) "leak-region"
+        ++ flag (to != te && items.any (·.ttyOnly)) "wrong-stream-region"
+        ++ items.flatMap itemTags).eraseDups }
+  | _, _, _, _, _, _ => badCase "plan"
+
+def handleConsole (nc cc cf to te tg tonly implObs : String) : Answer :=
+  match decTarget tg, decBool tonly with
+  | some tg, some tonly =>
+    handlePlan nc cc cf to te ((if tg = .stdout then "o" else "e") ++ (if tonly then "1" else "0") ++ "a") implObs true
+  | _, _ => badCase "console"
 
 def handle : Handler := fun cas obs =>
   match cas, obs with
@@ -246,6 +280,7 @@ def handle : Handler := fun cas obs =>
     | some m => handleHl w lvl m toks o
     | none => badCase "message"
   | ["console", nc, cc, cf, to, te, tg, tonly], [o] => handleConsole nc cc cf to te tg tonly o
+  | ["plan", nc, cc, cf, to, te, items], [o] => handlePlan nc cc cf to te items o false
   | _, _ => badCase "arity"
 
 end Driver.C18
